@@ -72,6 +72,7 @@ def bfs(model, init, prefix, depth, stats, max_violations=6):
             again, bad = replay(model, init, hist + [op], check=False)
             stats['replays'] += 1
             if bad or h64(model.key(again)) != k:
-                raise HarnessError('state reached from a copied state differs from the state reached by replaying %r from the initial state' % (hist + [op],))
+                raise HarnessError('state reached from a copied state differs from the state reached by replaying %r from the initial state%s' % (
+                    hist + [op], '' if not bad else ' (replay stopped at step %d: %s %s)' % (bad[0], bad[1].clause, bad[1].msg)))
             frontier.append((nxt, hist + [op]))
     return seen, viols
